@@ -76,11 +76,11 @@ def handle (st : St) (fam : String) (rhs : String) : P Out := do
     let (y, mo, d, h, mi, s, ns) ← fields7
     let (y', mo', d', h', mi', s', ns') ← fields7
     let c := cmpLex [y, mo, d, h, mi, s, ns] [y', mo', d', h', mi', s', ns']
-    pure { model := toString c, oracles := Spec.utccmpOracles [y, mo, d, h, mi, s, ns] [y', mo', d', h', mi', s', ns'] rhsToks }
+    pure { model := s!"{c} {unixTime y mo d h mi s} {unixTime y' mo' d' h' mi' s'}", oracles := Spec.utccmpOracles [y, mo, d, h, mi, s, ns] [y', mo', d', h', mi', s', ns'] rhsToks }
   | "utctn" =>
     let n ← int
     let m := UtcDateTime.fromTotalNanoseconds n
-    pure { model := showTz showUtc m, oracles := Spec.utctnOracles n rhsToks }
+    pure { model := showTz (fun c => showUtc c ++ s!" {c.unixTime}") m, oracles := Spec.utctnOracles n rhsToks }
   | "fmt" =>
     let (y, mo, d, h, mi, s, ns) ← fields7
     let off ← int
@@ -106,7 +106,8 @@ def handle (st : St) (fam : String) (rhs : String) : P Out := do
   | "dttn" =>
     let n ← int; let l ← ltt
     let m := DateTime.fromTotalNanosecondsAndLocal n l
-    pure { model := showTz showDt m, oracles := Spec.dtOracles rhsToks ++ Spec.dttnOracles n l rhsToks }
+    pure { model := showTz (fun d => showDt d ++ s!" TN {nanosecondsSinceUnixEpoch d.unixTime d.nanoseconds}") m,
+           oracles := Spec.dtOracles rhsToks ++ Spec.dttnOracles n l rhsToks }
   | "dtcmp" =>
     let u1 ← int; let ns1 ← int; let o1 ← int; let u2 ← int; let ns2 ← int; let o2 ← int
     -- `==` and `partial_cmp` of two zoned date-times (built with from_timespec_and_local)
@@ -162,6 +163,22 @@ def handle (st : St) (fam : String) (rhs : String) : P Out := do
     let b ← bytes
     let m := parseTzFile b
     pure { model := showTz showZone m, oracles := Spec.tzifOracles b rhsToks }
+  | "tzifgen" =>
+    let v ← nat
+    expect "Z"
+    let z ← zone
+    expect "B"
+    let b ← bytes
+    let m := parseTzFile b
+    pure { model := showTz showZone m, oracles := Spec.tzifgenOracles v z b rhsToks }
+  | "tzifbad" =>
+    let cls ← tok
+    let b ← bytes
+    let m := parseTzFile b
+    pure { model := showTz showZone m, oracles := Spec.tzifbadOracles cls b rhs }
+  | "threads" =>
+    let _ ← nat; let _ ← nat; let _ ← tok
+    pure { model := "identical" }
   | "tzfooter" =>
     let v ← nat
     let b ← bytes
